@@ -261,6 +261,12 @@ def loop_collects_then_sorts(ctx, c):
     if len(targets) != 1 or [s_ for s_ in f['sites'] if in_loop(s_)] or [a for a in f['assigns'] if in_loop(a)] or [r for r in f.get('returns', []) if in_loop(r)]:
         return False
     v = targets.pop()
+    # … or the loop only inserts into a local *set / map*: what such a container holds does not depend on insertion order
+    lets_v = [l for l in f.get('lets', []) if l.get('names') == [v]]
+    if lets_v and all(x.get('f') in ('insert', 'extend') for x in body if x.get('f') in ('push', 'insert', 'extend')):
+        init = vt.show(lets_v[0].get('v')).replace(' ', '') + ' ' + str(lets_v[0].get('ty') or '') + ' ' + str((lets_v[0].get('v') or {}).get('ty') if isinstance(lets_v[0].get('v'), dict) else '')
+        if re.search(r'\b(BTreeSet|BTreeMap|HashSet|HashMap)\b', init):
+            return True
     def on_v(x):
         r = x.get('recv')
         if isinstance(r, dict) and r.get('k') in ('ref', 'deref'):
